@@ -11,7 +11,7 @@ from vlib.nlp import NLP, Rows, subtract_rows, close, time_like_vars, random_poi
 
 ID = "C02"
 LEVEL = "exploration"
-BUDGET = {"quick": (8, 60), "thorough": (16, 800)}
+BUDGET = {"quick": (8, 60), "thorough": (16, 2000)}
 K = 3
 RULE = ("Generated ODE/DAE OCPs (vector/matrix states, controls, global/per-interval/per-node parameters and variables, optional index-1 algebraic equation, explicit t in most "
         "right-hand sides, fixed/free/parametric horizon) x DirectCollocation degree 1..5 x radau|legendre x N 1..4 x M 1..3 x every grid class; at 3 random decision vectors the "
